@@ -339,6 +339,13 @@ def run(tier, seed):
         "debug assertions on (the harness profile): new_setup_script / finish_setup_script debug_assert paths are "
         "compared as panics; release behaviour is the dbg=false branch of the model, covered by the theorems only",
     ]
+    # end-to-end stage: real cargo-nextest runs over the scripted puppet workspace (real schedules, real
+    # process exit status), judged by this property's oracle (lib/e2e_general.py)
+    try:
+        import e2e_general
+        e2e_general.stage(chk, PROP, tier, seed)
+    except RuntimeError as ex:
+        chk.violation("broken-obligation", "e2e-build", dict(error=str(ex)[-3000:]), no_input=True)
     return chk.finish(
         gate, "make -C coq Properties/C10.vo && coqc gen/assump_C10.v (Print Assumptions)",
         ["Coq 8.16.1 kernel + vm_compute",
